@@ -121,6 +121,38 @@ def _alt(rsys_named, reg, conc, t0, t1, params):
     return out
 
 
+def _make_solver(rxns, used, reg):
+    """ONE object of the alternative builder; every later call of the history goes to this object"""
+    from chempy import ReactionSystem
+    from chempy.kinetics.ode import _create_odesys
+    rsys = ReactionSystem(rxns, " ".join(used), checks=())
+    odesys, extra = _create_odesys(rsys, unit_registry=reg)
+    return {"odesys": odesys, "extra": extra, "used": used}
+
+
+def _call_solver(solver, op, call, sysrecs, gv):
+    """one call with its own, freshly made quantities: accepted (+ projected answer) or refused"""
+    from collections import defaultdict
+    import numpy as np
+    import chempy.units as cu
+    used = solver["used"]
+    params = {r["name"]: _q(k, gv) for r, k in zip(sysrecs, call["ks"])}
+    conc = {s: _q(call["conc"][s], gv) for s in used}
+    try:
+        if op == "validate":
+            v = solver["extra"]["validate"](dict(conc, **params))
+            return {"accepted": True, "rates_si": {k: uc.project_unitful(r)["si"] for k, r in v["rates"].items()}}
+        t1 = _q(call["t1"], gv)
+        res, _ = solver["extra"]["unit_aware_solve"]([0 * t1, t1], defaultdict(lambda: 0 * cu.default_units.molar, conc),
+                                                     dict(params), integrator="scipy", atol=1e-30, rtol=1e-10, nsteps=20000)
+    except Exception as e:  # noqa
+        return {"accepted": False, "exc": type(e).__name__, "msg": str(e)[:120]}
+    yo = uc.project_unitful(res.yout)
+    ysi = np.asarray(yo["si"], dtype=float).reshape(np.asarray(res.yout.magnitude).shape)
+    return {"accepted": True, "y_dim": yo["dim"], "yend_si": {n: float(ysi[-1, i]) for i, n in enumerate(solver["odesys"].names)},
+            "x1_si": float(uc.project_unitful(res.xout)["si"][-1]), "success": bool(res.info.get("success", True))}
+
+
 def run_case(case):
     """-> list of observations, one per op (an exception where a value is expected is the observation)"""
     from chempy import Reaction, ReactionSystem, Equilibrium
@@ -170,6 +202,12 @@ def run_case(case):
                 out.append(obs)
             elif op == "output":
                 out.append(_integrate(state["odesys"], state["t0"], state["t1"], state["conc"], state["params"]))
+            elif op == "solver":
+                rxns = [Reaction(_stoich(r["rx"]["reac"]), _stoich(r["rx"]["prod"]), param=r["name"]) for r in cin["sys"]]
+                state["solver"] = _make_solver(rxns, _used(cin["sys"]), uc.registry(a["reg"]))
+                out.append({"ok": True})
+            elif op in ("solve", "validate"):
+                out.append(_call_solver(state["solver"], op, a["call"], cin["sys"], gv))
             else:
                 raise ValueError(op)
         except Exception as e:  # noqa
@@ -245,6 +283,29 @@ def judge(case, i, a, obs, e, gv):
                 if not uc.close_abs(alt["rates_si"][s], tot, tol, scale):
                     return "validate-rate", "_create_odesys"
         return None
+    if op == "solver":
+        return None
+    if op in ("solve", "validate"):
+        fn = "unit_aware_solve" if op == "solve" else "validate"
+        if obs["accepted"] != e["accept"]:
+            return ("refused-right-dimension" if e["accept"] else "accepted-wrong-dimension"), fn
+        if not e["accept"]:
+            return None
+        if op == "validate":
+            for s in _used(case["in"]["sys"]):
+                tot, scale = _sum_terms(e["rates"][s], gv)
+                if s not in obs["rates_si"]:
+                    return "validate-missing-rate", fn
+                if not uc.close_abs(obs["rates_si"][s], tot, tol, scale):
+                    return "validate-rate", fn
+            return None
+        if not obs["success"]:
+            return None
+        if obs["y_dim"] != {"length": -3, "mass": 0, "time": 0, "current": 0, "temperature": 0, "amount": 1}:
+            return "output-dimension", fn
+        if not uc.close(obs["x1_si"], uc.num(e["phys"]["t"], gv), ctol):
+            return "output-time-unit", fn
+        return None
     if op == "output":
         if not obs["success"]:
             return None  # integrator failure is not a unit question (counted by the caller)
@@ -286,11 +347,32 @@ def replay_case(case):
             ends["main"] = o["yend_si"]
         if a["op"] == "rates" and isinstance(o.get("alt"), dict) and "yend_si" in o["alt"]:
             ends["alt"] = o["alt"]["yend_si"]
+    calls = []
+    prior = "fresh"
+    for i, (a, o) in enumerate(zip(case["in"]["ops"], obs)):
+        if a["op"] not in ("solve", "validate"):
+            continue
+        e = case["exp"]["obs"][i]
+        if (bad is None or i < bad[0]) and a["op"] == "solve" and e["accept"] and o.get("accepted") and o.get("success"):
+            calls.append({"phys": e["phys"], "yend_si": o["yend_si"], "prior": prior, "step": i})
+        prior = "after-" + ("answer" if e["accept"] else "refusal") if prior == "fresh" else prior
+    if calls:
+        ends = dict(ends or {}, calls=calls)
     return bad, obs, (ends or None)
 
 
-def _key(case, a, clause, fn):
+def _prior(case, i):
+    """what the solver object has been through before call i: nothing, or at least one call"""
+    before = [(b, e) for b, e in list(zip(case["in"]["ops"], case["exp"]["obs"]))[:i] if b["op"] in ("solve", "validate")]
+    if not before:
+        return "fresh"
+    return "after-answered-call" if any(e["accept"] for _, e in before) else "after-refused-call"
+
+
+def _key(case, a, clause, fn, i=None):
     key = {"fn": fn, "op": a["op"], "clause": clause, "cls": case.get("cls", "")}
+    if a["op"] in ("solve", "validate") and i is not None:
+        key["prior"] = _prior(case, i)
     if "mode" in a:
         key["mode"] = a["mode"]
     return key
@@ -373,8 +455,27 @@ class Gen(object):
             ux = ux + [self.r.choice(_EXTRA)]
         return {"kind": "k_accept", "rx": rx, "kmag": self.rat(), "kux": ux}
 
+    def solver(self):
+        """a history of 1-4 calls on ONE solver object: right and wrong dimensions in any order, new units and
+        values every time"""
+        base = self.system()
+        rxns = base["rxns"]
+        for r in rxns:     # the system itself is written with right dimensions (it only names the reactions)
+            r["kux"] = self.kux(sum(r["rx"]["reac"].values()), False)
+        calls = []
+        for _ in range(self.r.randint(1, 4)):
+            wrong_at = self.r.randrange(len(rxns)) if self.r.random() < 0.4 else None
+            calls.append({"op": self.r.choice(["solve", "solve", "validate"]),
+                          "call": {"ks": [{"mag": self.rat(), "ux": self.kux(sum(r["rx"]["reac"].values()), j == wrong_at)}
+                                          for j, r in enumerate(rxns)],
+                                   "conc": {s: {"mag": self.rat(), "ux": self.r.choice(_CONC)} for s in SUBST},
+                                   "t1": {"mag": [self.r.choice([1, 3, 7]), self.r.choice([8, 100, 1000])],
+                                          "ux": [{"n": self.r.choice(["s", "ms", "min"]), "p": 1}]}}})
+        return {"kind": "solver", "rxns": rxns, "reg": base["reg"], "calls": calls}
+
     def item(self):
-        return self.system() if self.r.random() < 0.7 else self.accept()
+        x = self.r.random()
+        return self.system() if x < 0.6 else (self.accept() if x < 0.85 else self.solver())
 
 
 def _run_trace(h):
@@ -383,6 +484,8 @@ def _run_trace(h):
         q = _q({"mag": h["kmag"], "ux": h["kux"]}, None)
         ok, exc = _try_reaction(h["rx"], q, cls=Equilibrium if h["kind"] == "k_accept" else None)
         return [{"ev": h["kind"], "rx": h["rx"], "kux": h["kux"], "accepted": ok}, {"ev": "end"}], {"accepted": ok, "exc": exc}
+    if h["kind"] == "solver":
+        return _run_solver_trace(h)
     ks = [_q({"mag": r["kmag"], "ux": r["kux"]}, None) for r in h["rxns"]]
     ev = [{"ev": "system", "rxns": [{"rx": r["rx"], "kmag": r["kmag"], "kux": r["kux"]} for r in h["rxns"]]}]
     acc = [_try_reaction(r["rx"], k)[0] for r, k in zip(h["rxns"], ks)]
@@ -418,6 +521,31 @@ def _run_trace(h):
     return ev, obs
 
 
+def _run_solver_trace(h):
+    from chempy import Reaction
+    ev = [{"ev": "system", "rxns": [{"rx": r["rx"], "kmag": r["kmag"], "kux": r["kux"]} for r in h["rxns"]]},
+          {"ev": "build", "accepted": [True] * len(h["rxns"])},
+          {"ev": "solver", "reg": {k: h["reg"][k] for k in uc.DIMS}}]
+    obs = []
+    try:
+        rxns = [Reaction(_stoich(r["rx"]["reac"]), _stoich(r["rx"]["prod"]), param=r["name"]) for r in h["rxns"]]
+        solver = _make_solver(rxns, _used(h["rxns"]), uc.registry(h["reg"]))
+    except Exception as ex:  # noqa
+        ev.append({"ev": "error", "op": "solver", "exc": type(ex).__name__})
+        ev.append({"ev": "end"})
+        return ev, [{"error": type(ex).__name__, "msg": str(ex)[:200]}]
+    used = _used(h["rxns"])
+    for c in h["calls"]:
+        o = _call_solver(solver, c["op"], c["call"], h["rxns"], None)
+        obs.append(o)
+        e = {"ev": c["op"], "call": c["call"], "accepted": bool(o["accepted"])}
+        if c["op"] == "validate":
+            e["rates"] = {s: _enc(o.get("rates_si", {}).get(s)) for s in used}
+        ev.append(e)
+    ev.append({"ev": "end"})
+    return ev, obs
+
+
 def _enc(v):
     f = uc.enc_float(v) if v is not None else None
     return f if f is not None else {"s": 2, "m": [], "e": 0}
@@ -426,20 +554,22 @@ def _enc(v):
 # --------------------------------------------------------------------------- run
 def run(ctx):
     import core
-    cfgs = ["accept", "refuse", "rates_q"] if ctx.quick else ["accept", "refuse", "rates_t", "regs_t"]
+    cfgs = ["accept", "refuse", "rates_q", "solver_q"] if ctx.quick else ["accept", "refuse", "rates_t", "regs_t", "solver_t"]
     jobs = [dict(module="UnitKinetics_MC", cfg="UnitKinetics_MC_%s.cfg" % c, require_cases=50,
                  require_actions={"accept": ["GenRateAccept", "GenKAccept"], "refuse": ["GenSetSystem", "Build"],
-                                  "rates_q": ["GenSetSystem", "Build", "GenSetConditions", "GenPhysicalRate", "GenOutput"]}.get(c, ()))
+                                  "rates_q": ["GenSetSystem", "Build", "GenSetConditions", "GenPhysicalRate", "GenOutput"],
+                                  "solver_q": ["GenMakeSolver", "GenSolve", "GenValidate", "GenFinishSolver"]}.get(c, ()))
             for c in cfgs]
     jobs.append(dict(module="Units_MC", cfg="Units_MC_catalog.cfg", require_cases=1, workers=1))
     results = uc.tlc_many(ctx, jobs, workers=6, parallel=4)
     meta = [c for c in results[-1].cases if c.get("cls") == "catalog"][0]["exp"]
 
     groups = {}
+    solver_groups = {}
     fails = 0
     for cfg, res in zip(cfgs, results[:-1]):
-        heavy = cfg.startswith("rates") or cfg.startswith("regs")
-        sel = ctx.pick(res.cases, (420 if heavy else 1400) if ctx.quick else None)
+        heavy = cfg.startswith("rates") or cfg.startswith("regs") or cfg.startswith("solver")
+        sel = ctx.pick(res.cases, ((160 if cfg.startswith("solver") else 420) if heavy else 1400) if ctx.quick else None)
         for k, c in enumerate(sel):
             c["alt"] = heavy and (int(core.stable_hash(c["in"]), 16) % ALT_SHARE == 0)
         outs = ctx.pmap(replay_case, sel, chunksize=4 if heavy else None)
@@ -453,14 +583,18 @@ def run(ctx):
                     ctx.counters["alternative_builder_cases"] += 1
             if bad is not None:
                 i, a, clause, fn, o = bad
-                ctx.violation(_key(case, a, clause, fn),
+                ctx.violation(_key(case, a, clause, fn, i),
                               {"direction": "spec->code", "case": case, "observed": {"step": i, "op": a, "clause": clause, "obs": o},
                                "expected": case["exp"]["obs"][i], "tlc_cfg": "UnitKinetics_MC_%s.cfg" % cfg})
             elif ends:
                 g = [e for a, e in zip(case["in"]["ops"], case["exp"]["obs"]) if a["op"] == "output"]
                 if g and not g[0]["exact"]:
                     for which, vals in ends.items():
-                        groups.setdefault(g[0]["group"], []).append((case, which, vals, case["exp"]["itol10"]))
+                        if which != "calls":
+                            groups.setdefault(g[0]["group"], []).append((case, which, vals, case["exp"]["itol10"]))
+            for c in (ends or {}).get("calls", ()):   # answers of solver objects, by physical problem
+                gk = core.stable_hash({"rx": [r["rx"] for r in case["in"]["sys"]], "phys": c["phys"]})
+                solver_groups.setdefault(gk, []).append((case, c))
         if sel:
             ctx.sample({"cfg": cfg, "in": sel[0]["in"], "exp": sel[0]["exp"]["obs"]}, cap=6)
     if fails:
@@ -479,6 +613,21 @@ def run(ctx):
                     break
         ctx.counters["integrated_groups"] += 1
         ctx.counters["integrated_configurations"] += len(items)
+    # a solver object has no memory: equal physical problems get equal answers, whatever the object was asked
+    # before and whatever its registry (reference: an answer given by a fresh object, if there is one)
+    for gk, items in sorted(solver_groups.items()):
+        items.sort(key=lambda it: (it[1]["prior"] != "fresh", core.stable_hash(it[0]["in"]), it[1]["step"]))
+        ref = items[0][1]["yend_si"]
+        top = Fraction(max(abs(v) for v in ref.values()))
+        for case, c in items[1:]:
+            if any(s not in c["yend_si"] or not uc.close_abs(c["yend_si"][s], Fraction(ref[s]), case["exp"]["itol10"], top) for s in ref):
+                a = case["in"]["ops"][c["step"]]
+                ctx.violation({"fn": "unit_aware_solve", "op": "solve", "clause": "answer-depends-on-history-or-registry",
+                               "cls": case["cls"], "prior": _prior(case, c["step"])},
+                              {"direction": "spec->code", "case": case, "observed": {"step": c["step"], "yend_si": c["yend_si"]},
+                               "expected": {"yend_si_of_reference_call": ref, "reference_prior": items[0][1]["prior"], "phys": c["phys"]}})
+        ctx.counters["solver_problems"] += 1
+        ctx.counters["solver_answers"] += len(items)
     ctx.exhaustive = not ctx.quick
 
     # code -> spec
@@ -495,8 +644,13 @@ def run(ctx):
         if clause.startswith("model:"):
             raise core.MachineryFailure("generated trace outside the model: %s at %d: %r" % (clause, pos, tr[:pos]))
         a = tr[pos - 1] if 0 < pos <= len(tr) else {}
-        fn = {"rate_accept": "Reaction", "build": "Reaction", "k_accept": "Equilibrium"}.get(a.get("ev"), "get_odesys")
-        ctx.violation({"fn": fn, "op": a.get("op", a.get("ev")), "clause": clause, "mode": h.get("mode", "")},
+        fn = {"rate_accept": "Reaction", "build": "Reaction", "k_accept": "Equilibrium", "solve": "unit_aware_solve",
+              "validate": "validate", "solver": "_create_odesys"}.get(a.get("ev"), "get_odesys")
+        key = {"fn": fn, "op": a.get("op", a.get("ev")), "clause": clause, "mode": h.get("mode", "")}
+        if a.get("ev") in ("solve", "validate"):
+            before = [e for e in tr[:pos - 1] if e["ev"] in ("solve", "validate")]
+            key["prior"] = "fresh" if not before else ("after-answered-call" if any(e["accepted"] for e in before) else "after-refused-call")
+        ctx.violation(key,
                       {"direction": "code->spec", "trace": tr, "history": h, "observed": obs,
                        "verdict": {"verdict": v, "pos": pos, "clause": clause}, "tlc_cfg": "UnitKineticsTrace.cfg"})
     if traces:
@@ -513,6 +667,15 @@ def replay(ctx, rec):
             if vals is None or any(not uc.close_abs(vals[s], Fraction(ref[s]), rec["case"]["exp"]["itol10"],
                                                     Fraction(max(abs(ref[x]) for x in ref))) for s in ref):
                 ctx.violation(rec["key"], {"observed": {"yend_si": vals}, "expected": rec["expected"]})
+            return
+        if rec["key"].get("clause") == "answer-depends-on-history-or-registry":
+            bad, obs, ends = replay_case(rec["case"])
+            ref = rec["expected"]["yend_si_of_reference_call"]
+            got = [c for c in (ends or {}).get("calls", ()) if c["step"] == rec["observed"]["step"]]
+            top = Fraction(max(abs(v) for v in ref.values()))
+            if not got or any(not uc.close_abs(got[0]["yend_si"].get(s, float("nan")), Fraction(ref[s]), rec["case"]["exp"]["itol10"], top)
+                              for s in ref):
+                ctx.violation(rec["key"], {"observed": got[0]["yend_si"] if got else None, "expected": rec["expected"]})
             return
         bad, obs, ends = replay_case(rec["case"])
         if bad is not None:
